@@ -86,7 +86,7 @@ FailsHdr(e) ==
   \o (CASE e.variant \in {"intact", "nocodec"} ->
              Chk(e.err = "none", "valid file rejected (a header without avro.codec means uncompressed)")
              \o Chk(Len(e.delivered) = 1 /\ (Len(e.delivered) # 1 \/ SameValue(e.input, e.delivered[1])), "record not delivered")
-        [] e.variant \in {"badmagic", "unknowncodec", "noschema"} ->
+        [] e.variant \in {"badmagic", "unknowncodec", "noschema", "unknowncodec-empty", "unknowncodec-upper", "unknowncodec-space", "unknowncodec-zstd"} ->
              Chk(e.err = "other", "damaged header accepted: " \o e.variant) \o Chk(e.delivered = <<>>, "records delivered from a file with a damaged header")
         [] OTHER -> <<"unknown header variant">>)
 
